@@ -16,6 +16,7 @@
      std      standard options and pseudo-options of the kind, good and bad, mixed with custom ones
      target   one schema field restricted by  targets = ...  x statements reaching it by every route
      strip    ordered subsets of populating statements x retention assignments (C22)
+     edenum   an edition 2023 file whose enum E is open resp. closed by feature x enum values by number / name
      sim      random longer lists drawn from struct + std (tlc -simulate)                      *)
 (* Runs: a set of records [mode, kinds, vals, n, maxret, tk] (written per tier by engines/optionlang.py into a
    small module, TLC configuration files cannot hold records); one TLC invocation explores all of them:
@@ -113,6 +114,10 @@ StdMix == { Stmt(P1("x_int32"), Int("1")), Stmt(P1("x_int32"), Str("bad")), Stmt
             Stmt(PMS("x"), Str("bad")), Stmt(<<M>>, Msg(<<MF("f_int32", Int("1")), MF("f_string", Int("5"))>>)),
             Stmt(PM("ri"), Int("1")) }
 
+(* ---- editions: enum E open / closed by feature (mode edenum, schema parameter ed) ---- *)
+EdEnumStmts == { Stmt(<<M>>, Msg(<<MF("f_enum", v)>>)) : v \in {Int("1"), Int("5"), NegInt("1"), NegInt("7"), Int("2147483648"), Id("E_ONE"), Id("bogus")} } \cup
+               { Stmt(PM("f_enum"), Int("5")), Stmt(PM("f_enum"), Id("E_NEG")), Stmt(P1("x_enum"), Int("5")), Stmt(P1("x_enum"), Id("E_ONE")) }
+
 (* ---- target universe ---- *)
 TgtIds == {"x_int32", "m", "Opt.f_int32", "Opt.sub", "Sub.x", "oext", "Opt.grp", "Opt.rm", "rm"}
 TargetNames == { Target(k) : k \in Kinds }
@@ -133,10 +138,10 @@ StripSeq(k) == << Stmt(P1("x_int32"), Int("1")), Stmt(P1("x_string"), Str("s")),
                   Stmt(PMS("x"), Int("1")), Stmt(PMS("y"), Str("a")),
                   Stmt(PM("rm"), Msg(<<MF("x", Int("1")), MF("y", Str("b"))>>)), Stmt(PM("rm"), Msg(<<MF("y", Str("c"))>>)),
                   Stmt(PM("mm"), Msg(<<MF("key", Str("a")), MF("value", Msg(<<MF("x", Int("1")), MF("y", Str("b"))>>))>>)),
-                  Stmt(PM("mm"), Msg(<<MF("key", Str("b")), MF("value", Msg(<<MF("y", Str("c"))>>))>>)) >> \o
+                  Stmt(PM("mm"), Msg(<<MF("key", Str("b")), MF("value", Msg(<<MF("y", Str("c"))>>))>>)),
+                  Stmt(<<M, NP("grp", FALSE), NP("g", FALSE)>>, Int("1")),
+                  Stmt(PM("rg"), Msg(<<MF("g", Int("1")), MF("h", Int("2"))>>)), Stmt(PM("rg"), Msg(<<MF("g", Int("5"))>>)) >> \o
                (IF \E f \in StdTop(k) : f.n = "deprecated" THEN << Stmt(<<NP("deprecated", FALSE)>>, Id("true")) >> ELSE <<>>)
-Rets == {"unset", "RUNTIME", "SOURCE"}
-RetAssignments == { r \in [RetIds -> Rets] : Cardinality({i \in RetIds : r[i] # "unset"}) <= MaxRet }
 
 Universe(k) ==
   CASE Mode = "scalar" -> ScalarStmts
@@ -144,12 +149,14 @@ Universe(k) ==
     [] Mode = "std"    -> StdStmts(k) \cup StdMix
     [] Mode = "target" -> TargetStmts
     [] Mode = "sim"    -> StructStmts \cup StdStmts(k)
+    [] Mode = "edenum" -> EdEnumStmts
     [] OTHER -> {}
 
 TKs == IF TKSet = "single" THEN { {t} : t \in TargetNames }
        ELSE { {t} : t \in TargetNames } \cup { {"file", t} : t \in TargetNames \ {"file"} } \cup { {"message", "field"} }
 Schemas ==
   CASE Mode = "target" -> { [NoSch EXCEPT !.tf = f, !.tk = tk] : f \in TgtIds, tk \in TKs }
+    [] Mode = "edenum" -> { [NoSch EXCEPT !.ed = e] : e \in {"open", "closed"} }
     [] OTHER -> {NoSch}
 
 Init == /\ run \in Runs
@@ -164,7 +171,7 @@ RECURSIVE Populated(_, _, _)
 Populated(mt, es, k) ==
   UNION { LET f == FieldByEntry(mt, k, es[i].n) IN
           {f.id} \cup (IF f.t \in {"msg", "grp"} /\ f.card = "one" THEN Populated(f.mt, es[i].v.fs, k)
-                       ELSE IF (f.t = "msg" /\ f.card = "rep") \/ f.card = "map"
+                       ELSE IF (f.t \in {"msg", "grp"} /\ f.card = "rep") \/ f.card = "map"
                        THEN UNION { Populated(f.mt, es[i].v.fs[j].v.fs, k) : j \in 1..Len(es[i].v.fs) }
                        ELSE {})
           : i \in 1..Len(es) }
@@ -199,9 +206,10 @@ AddStmt ==
    among those whose marked fields are all populated (a retention on an absent field adds nothing)     *)
 Decorate ==
   /\ Mode = "strip" /\ ~info.dec /\ Len(stmts) >= 1
-  /\ \E r \in RetAssignments :
-        /\ { i \in RetIds : r[i] # "unset" } \subseteq (Populated("TOP", acc, kind) \cup (IF sib = "none" THEN {} ELSE {"x_int32"}))
-        /\ sch' = [sch EXCEPT !.ret = r]
+  /\ \E S \in SUBSET (RetIds \cap (Populated("TOP", acc, kind) \cup (IF sib = "none" THEN {} ELSE {"x_int32"}))) :
+        /\ Cardinality(S) <= MaxRet
+        /\ \E g \in [S -> {"RUNTIME", "SOURCE"}] :
+              sch' = [sch EXCEPT !.ret = [i \in RetIds |-> IF i \in S THEN g[i] ELSE "unset"]]
   /\ info' = [info EXCEPT !.dec = TRUE]
   /\ UNCHANGED <<run, kind, part, stmts, acc, bad, uacc, ubad, sib>>
 Next == AddStmt \/ Decorate
@@ -212,7 +220,7 @@ Strict == [ok |-> bad = <<>>, es |-> acc]
 SibStmts == << Stmt(P1("x_int32"), Int("7")) >>
 SibEs == InterpretOption(<<>>, SibStmts[1], kind, sch).v.fs
 RetView == { <<i, sch.ret[i]>> : i \in {j \in RetIds : sch.ret[j] # "unset"} }
-Case == [mode |-> Mode, kind |-> kind, tf |-> sch.tf, tk |-> sch.tk, ret |-> RetView,
+Case == [mode |-> Mode, kind |-> kind, ed |-> sch.ed, tf |-> sch.tf, tk |-> sch.tk, ret |-> RetView,
          stmts |-> stmts, ok |-> bad = <<>>, pre |-> info.pre, rules |-> info.rules,
          es |-> acc, bad |-> bad, ues |-> uacc, ubad |-> ubad] @@
         (IF Mode = "strip"
@@ -231,7 +239,7 @@ NoSource(mt, es, k) ==
     LET f == FieldByEntry(mt, k, es[i].n) IN
     /\ RetOf(f, sch) # "SOURCE"
     /\ (f.t \in {"msg", "grp"} /\ f.card = "one") => NoSource(f.mt, es[i].v.fs, k)
-    /\ ((f.t = "msg" /\ f.card = "rep") \/ f.card = "map") => \A j \in 1..Len(es[i].v.fs) : NoSource(f.mt, es[i].v.fs[j].v.fs, k)
+    /\ ((f.t \in {"msg", "grp"} /\ f.card = "rep") \/ f.card = "map") => \A j \in 1..Len(es[i].v.fs) : NoSource(f.mt, es[i].v.fs[j].v.fs, k)
 StripSane ==
   LET s == StripTop(acc, kind, sch) IN
   /\ StripTop(s.es, kind, sch).es = s.es
